@@ -1,13 +1,14 @@
 #!/bin/bash
 # runs every seeded change against the quick check of the property it breaks; prints one line per seed
-cd /verif/seeded || exit 2
+V=$(cd "$(dirname "$0")" && pwd)
+cd $V/seeded || exit 2
 for d in */; do
   d=${d%/}
   [ -f "$d/patch.diff" ] || continue
   case "$d" in *neutralised*) continue;; esac
   p=$(python3 -c "import json;print(json.load(open('$d/meta.json'))['breaks_property'])")
   patch=$d/patch.diff; [ -f "$d/patch.ported.diff" ] && patch=$d/patch.ported.diff
-  out=$(/verif/seedtest.sh /verif/seeded/$patch ${1:-quick} $p 2>&1)
+  out=$($V/seedtest.sh $V/seeded/$patch ${1:-quick} $p 2>&1)
   base=$(echo "$out" | grep -c "missing: 0")
   echo "$d | baseline_ok=$base | $(echo "$out" | grep "^CAUGHT-BY" ) | $(echo "$out" | grep " rc=" | cut -c1-160)"
 done
